@@ -1,6 +1,6 @@
 SPECIFICATION Spec
 CONSTANTS
-  Kinds <- KindsChain
+  Kinds <- KindsIntent
   NeedsWitness <- Needs
   FeeKinds <- Fees
   ParamKind = "setparam"
@@ -11,6 +11,9 @@ CONSTANTS
   SameAddr <- ProbedSameAddr
   MaxTx = 2
   MaxBlocks = 2
+  EnvKinds <- KindsEnv
+  Paths <- PathsAll
+  EnvFromIndex = FALSE
   LazyFromRaw = FALSE
 VIEW view
 INVARIANT Agreement
